@@ -183,7 +183,14 @@ fn gen_records(w: &World, kind: Kind, scale: Scale, magic: Option<usize>, edge_d
             (Scale::Large, _) if w.chance(1, 2) => w.range(1, 20_000) as usize,
             (Scale::Huge, _) if w.chance(1, 8) => *w.pick(&[1usize << 20, (1 << 20) + 1, (1 << 20) - 1, 1 << 21, (1 << 20) + 4097]),
             (Scale::Huge, _) if w.chance(1, 2) => w.range(1, 200_000) as usize,
-            (Scale::Many, _) => w.small(1, 40) as usize,
+            // many records, mostly small, now and then one long line among them
+            (Scale::Many, _) => {
+                if w.chance(1, 40) {
+                    *w.pick(&[1100usize, 2048, 5000, 70_000])
+                } else {
+                    w.small(1, 40) as usize
+                }
+            }
             (_, Some(m)) if w.chance(1, 2) => near_magic(w, m, 300_000),
             _ => w.small(1, 40) as usize,
         };
